@@ -66,6 +66,7 @@ type FuncSpec struct {
 	NoWrap     bool // C: unsigned + and * must not wrap around either (obligations `nowrap`)
 	NoBody     bool // C contract used at call sites only (body is BLST / not translated)
 	Tags       string // extra build tags of the configuration in which the body is verified
+	RecvInv    bool     // the requires clauses are the representation invariant of the receiver: assumed where the method is reached through an interface
 	Unfold     []string // chunk functions whose byte-level definition is available in the body proof
 }
 
@@ -198,6 +199,8 @@ func (db *SpecDB) LoadFile(path string, pkg string) error {
 					cur.NoWrap = true
 				case "nobody":
 					cur.NoBody = true
+				case "recvinv":
+					cur.RecvInv = true
 				case "inline":
 					cur.Inline = true
 				case "trusted":
